@@ -41,8 +41,12 @@ type Interp struct {
 	// Bind lets a query give selected SSA values a constant. It is consulted
 	// before anything else, in the queried function and in every callee.
 	Bind func(v ssa.Value, fr *frame) (Val, bool)
-	// PathBind gives memory paths a value ("p0.stream", "len(p0.values)").
+	// PathBind gives memory paths a value ("p0.stream", "len(p0.values)"); it
+	// holds whatever the analysed code writes there.
 	PathBind map[string]Val
+	// InitBind gives input memory its initial contents: unlike PathBind a cell
+	// the analysed code writes afterwards reads as what was written.
+	InitBind map[string]Val
 	// final is the store at the exits of the last top-level activation; the
 	// rules read results from it (HeapAt, Elem, FinalHeap).
 	final Store
@@ -79,6 +83,8 @@ type Interp struct {
 	// OnAppend observes every append (final pass only): the call, the appended
 	// slice value and, when its length is known, its elements.
 	OnAppend func(call *ssa.Call, appended Val, elems []Val, fr *frame)
+	// OnSend observes every channel send, with the value sent.
+	OnSend func(send *ssa.Send, v Val, fr *frame)
 	// CutSink receives every integer constant a subject-derived value is compared with.
 	CutSink func(c *big.Int)
 	Sizes   types.Sizes
@@ -95,7 +101,7 @@ type Interp struct {
 }
 
 func NewInterp(p *Prog) *Interp {
-	return &Interp{Prog: p, PathBind: map[string]Val{}, maxSteps: 400000,
+	return &Interp{Prog: p, PathBind: map[string]Val{}, InitBind: map[string]Val{}, maxSteps: 400000,
 		Sizes: types.SizesFor("gc", "amd64"), ReachedAny: map[ssa.Instruction]bool{},
 		NoPath: os.Getenv("SC_NOPATH") != "", pathFail: map[*ssa.Function]int{}, pathOK: map[*ssa.Function]int{}}
 }
@@ -727,6 +733,11 @@ func (fr *frame) step(instr ssa.Instruction) bool {
 		fr.allocate(fr.siteName(i))
 	case *ssa.MakeMap:
 		fr.allocate(fr.siteName(i))
+	case *ssa.Send:
+		if fr.in.OnSend != nil && fr.in.collect {
+			fr.in.OnSend(i, fr.eval(i.X), fr)
+			fr.in.curFr = fr
+		}
 	case *ssa.Range:
 		delete(fr.iterPos, i)
 	case *ssa.Store:
@@ -1333,6 +1344,9 @@ func (fr *frame) storeFrom(base string, lo int, v Val) {
 
 // inputVal is what an unwritten cell of input memory holds.
 func (fr *frame) inputVal(path string, t types.Type) Val {
+	if v, ok := fr.in.InitBind[path]; ok {
+		return v
+	}
 	if _, isMap := t.Underlying().(*types.Map); isMap {
 		return Val{K: KPtr, S: path}
 	}
